@@ -379,6 +379,11 @@ func InstallBridge(vm *goja.Runtime) {
 		boxes[w] = b
 		return w
 	})
+	// __brPP() -> a wrapped **BrS whose pointee is {F: 6}
+	vm.Set("__brPP", func(call goja.FunctionCall) goja.Value {
+		p := &BrS{F: 6}
+		return vm.ToValue(&p)
+	})
 	// __brPtr(root, n) -> a fresh wrapper of the object p<n> (what a Go function returning the *S would hand to script)
 	vm.Set("__brPtr", func(call goja.FunctionCall) goja.Value {
 		b := boxes[call.Argument(0).(*goja.Object)]
